@@ -160,7 +160,7 @@ class Ctx:
         name = name or (module + "-" + os.path.splitext(os.path.basename(cfg))[0])
         out = self.path(name + ".tlcout")
         meta = self.path("meta-" + name)
-        props = ["-XX:+UseParallelGC", "-Xmx" + heap, "-Xss64m"]
+        props = ["-XX:+UseParallelGC", "-Xmx" + heap, "-Xss64m", "-Djava.io.tmpdir=" + self.scratch]
         if deque:
             props.append("-Dtlc2.tool.queue.IStateQueue=StateDeque")
         cmd = ["java"] + props + ["-cp", TLA_CP, "tlc2.TLC", "-noGenerateSpecTE", "-metadir", meta,
@@ -553,7 +553,7 @@ def validate_trace(ctx, module, cfg_template, trace_path, is_reset, chunk_events
             f.write(tmpl.replace("__TRACE__", ch[0]))
         out = ctx.path("%s.%s.%d.tlcout" % (base, module, i))
         meta = ctx.path("meta-%s-%s-%d" % (base, module, i))
-        cmd = ["java", "-XX:+UseParallelGC", "-XX:ParallelGCThreads=2", "-Xmx" + heap, "-Xss64m", "-cp", TLA_CP, "tlc2.TLC",
+        cmd = ["java", "-XX:+UseParallelGC", "-XX:ParallelGCThreads=2", "-Xmx" + heap, "-Xss64m", "-Djava.io.tmpdir=" + ctx.scratch, "-cp", TLA_CP, "tlc2.TLC",
                "-noGenerateSpecTE", "-metadir", meta, "-workers", "1", "-config", cfgname, module]
         fo = open(out, "w")
         p = subprocess.Popen(cmd, cwd=d, stdout=fo, stderr=subprocess.STDOUT)
